@@ -7,6 +7,7 @@ package gmars
 func init() {
 	vHarness["C13_sequence"] = VerifHarness_C13_sequence
 	vHarness["C13_reset_fresh"] = VerifHarness_C13_reset_fresh
+	vHarness["C13_respawn"] = VerifHarness_C13_respawn
 	vHarness["C13_inapplicable"] = VerifHarness_C13_inapplicable
 }
 
@@ -380,6 +381,49 @@ func VerifHarness_C13_reset_fresh() {
 // stepping or running a finished, empty or never-started battle changes
 // nothing and returns promptly — from an arbitrary state of the shape the
 // API can reach (some warriors never spawned: no queue yet)
+// SpawnWarrior in the middle of things: from an arbitrary state (battle in
+// progress, decided or over; warriors added, alive or dead) a warrior that
+// is not alive - never started or dead - is (re)started with one task at
+// (offset + entry point) mod M and counts as living again; a living one is
+// refused and nothing changes
+func VerifHarness_C13_respawn() {
+	M := Address(vParam("M"))
+	P := Address(vParam("P"))
+	n := vParam("n")
+	s := vMkSim(M, M, M, P, 10)
+	vHavocCore(s)
+	for i := 0; i < n; i++ {
+		w := vHavocWarrior(s, P)
+		w.data = &WarriorData{Code: []Instruction{vHavocInstr(M)}, Start: 0}
+	}
+	s.warriorLivingCount = vAliveCount(s)
+	s.cycleCount = Address(vU64("cycle"))
+	vAssume(s.cycleCount <= 10)
+	wi := vPick("wi", 0, n-1)
+	w := s.warriors[wi]
+	wasAlive := w.state == WarriorAlive
+	living := s.warriorLivingCount
+	off := Address(vU64("off"))
+	vAssume(off < 2*M)
+	snap := vSnap(s)
+	err := s.SpawnWarrior(wi, off)
+	if wasAlive {
+		vAssert("living-warrior-refused", err != nil)
+		vAssertUnchanged("refused-spawn-changes-nothing", s, snap)
+		vReach("refused")
+		return
+	}
+	vAssert("dead-or-new-warrior-started", err == nil)
+	if err != nil {
+		return
+	}
+	q := w.Queue()
+	vAssert("spawned-one-task", len(q) == 1 && q[0] == off%M)
+	vAssert("spawned-alive", w.Alive() && s.warriorLivingCount == living+1)
+	vAssert("code-loaded", vSameInstr(s.mem[off%M], w.data.Code[0]))
+	vReach("started")
+}
+
 func VerifHarness_C13_inapplicable() {
 	M := Address(vParam("M"))
 	P := Address(vParam("P"))
@@ -405,8 +449,17 @@ func VerifHarness_C13_inapplicable() {
 	if vParam("run") == 1 {
 		res := s.Run()
 		vAssert("run-result-shape", vOr(vAnd(n == 0, res == nil), len(res) == n))
+		for i := 0; i < len(res) && i < n; i++ {
+			vAssert("run-result-is-alive-flag", res[i] == (s.warriors[i].state == WarriorAlive))
+		}
 	} else {
-		s.RunCycle()
+		// the documented return value: nothing left to run (cycle limit
+		// reached or nobody alive) gives 0, a decided battle its survivors
+		living := s.warriorLivingCount
+		over := s.cycleCount >= s.maxCycles || living < 1
+		ret := s.RunCycle()
+		vAssert("runcycle-returns-zero-when-over", vImplies(over, ret == 0))
+		vAssert("runcycle-returns-survivors-when-decided", vImplies(!over, ret == living))
 	}
 	vAbstractArith(false)
 	vPrune(true)
